@@ -18,7 +18,8 @@ RULE = ('model/implementation cases: both encoders on v = +-2^(7k)+d and +-2^(7k
         'integer (encoded or decoded) is not 0')
 EXPLANATION = ('Unbounded Coq theorems (every integer) about the regenerated Gen.leb128: encoder output is the unique '
                'canonical encoding of Spec/Leb128Spec.v, decoders invert it and consume exactly the encoding, unsigned '
-               'encoder rejects negatives. Correspondence and reference sweep are supporting validation of the '
+               'encoder rejects negatives; on EVERY byte iterator the decoders either consume exactly one well-formed encoding '
+               'or (no terminating byte) raise StopIteration, and any returned value comes from such an encoding. Correspondence and reference sweep are supporting validation of the '
                'translator and the source of concrete replayable inputs, not the proof.')
 TRUSTED = ['tools/py2coq.py (translator, fail-closed; output cross-checked against the implementation on every run)',
            'Python int arithmetic == Coq Z arithmetic (floor shifts, two\'s-complement & | ^ on negative ints)',
@@ -28,8 +29,10 @@ TRUSTED = ['tools/py2coq.py (translator, fail-closed; output cross-checked again
            '(no bit-width limit N: ppci encodes unbounded integers)']
 ASSUMPTIONS = ['the argument of the encoders is a Python int (the isinstance check of the unsigned encoder is modelled as true)',
                'fuel hypothesis of every theorem: fuel >= log2|v| / 7 + 2 loop iterations (met: Example c20_nonvacuous)',
-               'decoder theorems are about iterators over well-formed encodings followed by arbitrary ints; on byte '
-               'strings without a terminating byte the decoders raise StopIteration (modelled, cross-checked, not a theorem)']
+               'decoder theorems are about iterators over well-formed encodings followed by arbitrary ints, and '
+               '(c20_decode_truncated / c20_decode_total / c20_decode_ok_inv) about every iterator over bytes 0..255: without a '
+               'terminating byte the decoders raise StopIteration; iterators of ints outside 0..255 are modelled and '
+               'cross-checked only']
 
 ENTRIES = [
     {'name': 'signed_leb128_encode'}, {'name': 'unsigned_leb128_encode'},
@@ -184,6 +187,10 @@ def decoder_inputs(rng, values):
                 enc = ref_uleb(v)
                 out.append(('padded', list(ref_groups(v, len(enc) + extra)) + [0xAA, 0x80]))
     out.append(('truncated', []))
+    for v in values[::7] + [64, -65, 300, -300, 1 << 20, -(1 << 63)]:   # valid encodings cut before their last byte
+        enc = list(ref_sleb(v))
+        for cut in {len(enc) - 1, len(enc) // 2}:
+            out.append(('truncated', enc[:cut]))
     for n in (1, 2, 3, 10, 20):             # no terminating byte
         out.append(('truncated', [0x80 | rng.randrange(128) for _ in range(n)]))
         out.append(('truncated', [0xFF] * n))
@@ -397,10 +404,12 @@ MANIFEST = {
             'canonical encoding is unique, so any well-formed minimal byte string with value v equals the encoder output; both '
             'decoders return the specification value of every well-formed encoding (minimal or padded) and leave the iterator '
             'exactly after its last byte, hence decode(encode(v) ++ rest) = (v, rest); the unsigned encoder raises its ValueError '
-            'for every negative integer. The model is regenerated from the source by py2coq on every run.',
+            'for every negative integer; on every iterator over bytes the decoders are totally characterised: a well-formed '
+            'prefix is decoded to its specification value, otherwise (no terminating byte, or empty) StopIteration is raised, and '
+            'a returned (v, rest) always stems from exactly one well-formed encoding. The model is regenerated from the source by py2coq on every run.',
     'note': 'trusted: Coq kernel, tools/py2coq.py (cross-checked per run against the implementation on ~2000 boundary/random/malformed '
-            'cases), Python int == Z, reading of DWARF/Wasm in Spec/Leb128Spec.v. Not covered by a theorem: behaviour on iterators '
-            'without a terminating byte (StopIteration; modelled and cross-checked only); the isinstance(int) TypeError branch. '
+            'cases), Python int == Z, reading of DWARF/Wasm in Spec/Leb128Spec.v. Not covered by a theorem: iterators over ints outside 0..255 '
+            '(modelled and cross-checked only); the isinstance(int) TypeError branch. '
             'No axioms.',
     'technique': 'Coq proof over py2coq-regenerated model + differential correspondence + independent reference sweep',
 }
